@@ -3,6 +3,7 @@ import RtenVerif.Model.FastBroadcast
 import RtenVerif.Model.InPlace
 import RtenVerif.Model.BinaryDispatch
 import RtenVerif.Model.ReduceDispatch
+import RtenVerif.Model.BlockedCopy
 import RtenVerif.Generated.RegistryOps
 
 namespace RtenVerif.Driver.C14
@@ -117,8 +118,19 @@ def handleCp (ws : List String) : String :=
   | some a =>
     -- through the C09 model of `to_contiguous` (borrow if contiguous, else row-major copy)
     let n := a.base + (a.dims.map (fun d => (d.1 - 1) * d.2)).sum + 3
-    let t := toContiguous ⟨(List.range n).map (· + 1), a⟩
-    showTens (tensOf t.view (fun i => ((t.store.getD i 0 : Nat) : Int)))
+    match a.dims with
+    | [(rows, rs), (cols, cs)] =>
+      if rows * cols ≤ 400 then
+        -- rank 2: through the tile-loop model of `copy_blocked` (BLOCK_SIZE 64, TILE_SIZE 4)
+        let d := RtenVerif.BlockedCopy.blockedCopy rows cols 64 4
+          (fun y x => ((a.base + y * rs + x * cs : Nat) : Int) + 1) (List.replicate (rows * cols) 0)
+        s!"shape={showShape [rows, cols]} data={showData d}"
+      else
+        let t := toContiguous ⟨(List.range n).map (· + 1), a⟩
+        showTens (tensOf t.view (fun i => ((t.store.getD i 0 : Nat) : Int)))
+    | _ =>
+      let t := toContiguous ⟨(List.range n).map (· + 1), a⟩
+      showTens (tensOf t.view (fun i => ((t.store.getD i 0 : Nat) : Int)))
   | none => "bad-request"
 
 def handleCov (ws : List String) : String :=
